@@ -128,7 +128,7 @@ def run(prog, rep, tier):
         rep.check(table.get(m) == k, 'P1-id13-permutation', 'decode_id13#bit-%#06x' % m, site,
                   'input bit %#06x maps to %s, the standard says %#06x' % (m, hex(table[m]) if m in table else 'nothing', k),
                   sample={'in_bit': hex(m), 'out_bit': hex(k)} if m in (0x1000, 0x0001) else None)
-    extra = sorted(set(table) - set(ID13))
+    extra = sorted(m for m in set(table) - set(ID13) if table[m] != 0)      # OR with 0 is no mapping
     rep.check(not extra, 'P1-id13-permutation', 'decode_id13#no-extra-bits', site, 'input bits %s are also mapped (bit 6 = X/M must be dropped)' % [hex(x) for x in extra])
     for st, v in rets:
         r = E.scalar(st, v)
